@@ -66,7 +66,9 @@ def build_tuftool():
     with open(os.path.join(WORK, ".build-tuftool.lock"), "w") as lk:
         fcntl.flock(lk, fcntl.LOCK_EX)
         env = {"CARGO_NET_OFFLINE": "true", "CARGO_TARGET_DIR": TUFTOOL_TARGET,
-               "RUSTFLAGS": "--cfg tough_verif --check-cfg cfg(tough_verif)"}
+               "RUSTFLAGS": "--cfg tough_verif --check-cfg cfg(tough_verif)",
+               # no debug info: the binary is executed tens of thousands of times
+               "CARGO_PROFILE_DEV_DEBUG": "0"}
         p = sh(["cargo", "build", "--offline", "--quiet", "-p", "tuftool"], cwd=REPO, env=env,
                check=False, timeout=3600)
         if p.returncode != 0:
